@@ -19,17 +19,21 @@ EXPLANATION = (
     "constants against zlib-ng's templates, masks; Adler BASE (largest prime < 2^16) and NMAX (largest n with "
     "255n(n+1)/2+(n+1)(BASE-1) < 2^32). ATOM: each Adler kernel in the build bounds the bytes between two reductions by NMAX "
     "(chunk size NMAX/vector width, min(len, NMAX), chunks_exact(NMAX)) and reduces both sums mod BASE; crc32() sends < 64 bytes "
-    "to the braid kernel; adler32/crc dispatchers can reach the portable kernel. The vector arithmetic itself, tail handling and "
-    "combine for all lengths are NOT decided — this is most of the property; the claim is for the table/constant clause only.")
+    "to the braid kernel; adler32/crc dispatchers can reach the portable kernel. ABSINT: adler32_combine is abstractly interpreted "
+    "(intervals + polynomial congruences modulo BASE over the MIR, branches refine, paths join): for all Adler-32 arguments and all "
+    "lengths the two halves of the result are in [0, BASE) and congruent to a1+a2-1 and b1+b2+len2*(a1-1), i.e. equal to the "
+    "checksum of the concatenation, and no operation wraps. The vector arithmetic itself, tail handling and crc32_combine's "
+    "GF(2) loop are NOT decided.")
 
 CLAIM = dict(
     text="Static: every checksum table and folding constant is recomputed from the polynomial / prime definitions and compared "
          "entry by entry with the compiler-evaluated constants (about 4400 entries, exhaustive); deferred-modulo strides are "
-         "checked to derive from NMAX. A wrong entry gives a wrong checksum for some input (necessary condition). The SIMD "
-         "arithmetic is not decided.",
+         "checked to derive from NMAX; adler32_combine is proved equal to its definition for all arguments by abstract "
+         "interpretation (intervals and congruences modulo BASE) of its MIR. A wrong entry gives a wrong checksum for some "
+         "input (necessary condition). The SIMD arithmetic and crc32_combine's loop are not decided.",
     note="Trusted: rustc const evaluation; oracles/crcmath.py (definitions); zlib-ng template constants for the two constants "
          "not re-derived (Barrett mu, initial state). Only x86_64 kernels are in the analysed build (K1; K3/K3b for AVX-512/VPCLMULQDQ).",
-    technique="constant tables recomputed from mathematical definitions and compared via compiler const evaluation",
+    technique="constant tables recomputed from mathematical definitions and compared via compiler const evaluation; abstract interpretation (interval + congruence domain) of adler32_combine",
 )
 
 ELEM_SIZE = {"core::core_arch::x86::__m256i": 32, "core::core_arch::x86::__m512i": 64, "core::core_arch::x86::__m128i": 16, "u8": 1}
@@ -156,6 +160,56 @@ def adler_consts(ck, P):
     ck.decide(cb == base, R, "adler32_combine::BASE", "same modulus", "adler32_combine uses modulus %s" % cb)
 
 
+def adler_combine_proof(ck, P):
+    """ABSINT: adler32_combine, for all valid arguments, returns the Adler-32 of the concatenation.
+    Spec (from the definition a = 1 + sum bytes, b = sum of the running a): for A then B with |B| = len2,
+      a(AB) = a1 + a2 - 1,  b(AB) = b1 + b2 + len2*(a1 - 1)   (mod BASE), each half in [0, BASE)."""
+    from .. import absint
+    R = "ABSINT/adler32-combine"
+    fn = P.fn(Z + "adler32::adler32_combine")
+    if not ck.anchor("fn adler32::adler32_combine", fn):
+        return
+    ck.use_fn(fn)
+    B = crcmath.adler_base()
+    names = [fn.locals[i].get("ty") for i in range(1, fn.arg_count + 1)]
+    if not ck.anchor("adler32_combine(u32, u32, u64)", names == ["u32", "u32", "u64"], where(fn)):
+        return
+
+    def half(taint, mask):
+        # precondition: both checksum arguments are Adler-32 values, i.e. each 16-bit half is < BASE
+        if mask == 0xffff and taint[0] in (1, 2) and taint[1] in (0, 16):
+            return ("%s%d" % ("a" if taint[1] == 0 else "b", taint[0]), B - 1)
+        return None
+
+    it = absint.Interp(fn, B, {3: "len2"}, half)
+    res = it.run()
+    for line, text in it.failed:
+        ck.bad(R, "no-wrap", "arithmetic of adler32_combine is not proved free of wrap-around: %s" % text, where(fn, line))
+    if not it.failed:
+        ck.ok(R, "no-wrap", "%d arithmetic operations proved not to wrap (so the debug overflow assertions are dead)" % it.ops)
+    PM = absint.Poly
+    a1, a2, b1, b2, n = (PM.sym(B, x) for x in ("a1", "a2", "b1", "b2", "len2"))
+    spec_lo = a1.add(a2).sub(PM.const(B, 1))
+    spec_hi = b1.add(b2).add(n.mul(a1)).sub(n)
+    parts = res.parts if res is not None else None
+    ok_shape = bool(parts) and parts[0] is not None and parts[2] == 16
+    ck.decide(ok_shape, R, "result-shape", "result = low | (high << 16)",
+              "the return value of adler32_combine is not recognisably low | (high << 16): %r" % (res,), where(fn))
+    if not ok_shape:
+        return
+    lo, hi = parts[0], parts[1]
+    ck.decide(lo.poly == spec_lo, R, "low-half:congruence", "low half == a1 + a2 - 1 (mod %d)" % B,
+              "low half is congruent to %r, the definition gives %r (mod %d)" % (lo.poly, spec_lo, B), where(fn))
+    ck.decide(hi.poly == spec_hi, R, "high-half:congruence", "high half == b1 + b2 + len2*(a1 - 1) (mod %d)" % B,
+              "high half is congruent to %r, the definition gives %r (mod %d)" % (hi.poly, spec_hi, B), where(fn))
+    ck.decide(0 <= lo.lo and lo.hi < B, R, "low-half:reduced", "low half in [%d, %d]" % (lo.lo, lo.hi),
+              "low half can be as large as %d >= BASE on some path: it is not fully reduced modulo %d" % (lo.hi, B), where(fn))
+    ck.decide(0 <= hi.lo and hi.hi < B, R, "high-half:reduced", "high half in [%d, %d]" % (hi.lo, hi.hi),
+              "high half can be as large as %d >= BASE on some path (a reduction step is skipped for part of its range): "
+              "it is not fully reduced modulo %d" % (hi.hi, B), where(fn))
+    ck.sample("adler32_combine: low %r, high %r" % (lo, hi))
+
+
 def adler_kernels(ck, P, cfg):
     R = "ATOM/adler-stride"
     kernels = [
@@ -253,6 +307,7 @@ def run(ck):
     ck.configs.add("K1")
     n = crc_consts(ck, P, "K1")
     adler_consts(ck, P)
+    adler_combine_proof(ck, P)
     k = adler_kernels(ck, P, "K1")
     ck.floor("ATOM/adler-stride:K1", k, 2)
     dispatch_shape(ck, P, "K1")
